@@ -173,9 +173,9 @@ func (g *guard) ReleaseTreasureGuard(guardID ID) {
 
 	if len(g.waitForUnlock) > 0 && g.waitForUnlock[0] == int64(guardID) {
 		g.waitForUnlock = g.waitForUnlock[1:]
-		if len(g.waitForUnlock) == 0 {
-			atomic.StoreInt64(&g.largestGuardID, 0)
-		}
+		// The ID counter is intentionally NOT reset when the queue empties: guard IDs
+		// must never be reused, otherwise a stale (duplicate) release carrying an old ID
+		// would release the guard of a later, unrelated holder that was handed the same ID.
 		g.cond.Broadcast()
 		return
 	}
